@@ -234,15 +234,17 @@ static constexpr std::uint8_t kU8Lit5[] = {0xf0, 0x9f, 0x98, 0x80, 0xf0, 0x9f, 0
   X(4, kU8Lit4, 0xffffffffffffffffull, 0xffffffffffffffffull) \
   X(5, kU8Lit5, 0x9e3779b97f4a7c15ull, 0xc2b2ae3d27d4eb4full)
 
-struct LitRow { int idx; bool u8; Bytes bytes; uint64_t k0, k1, compile_time; };   // bytes: everything that is hashed
+struct LitRow { int idx; bool u8; Bytes bytes; uint64_t k0, k1, compile_time, compile_time_reader; };   // _reader: Compute(BlockReader<T>(array), ...), the container entry point   // bytes: everything that is hashed
 static std::vector<LitRow> literal_rows() {
   std::vector<LitRow> r;
 #define X(i, lit, K0, K1) r.push_back({i, false, Bytes(reinterpret_cast<const uint8_t*>(lit), reinterpret_cast<const uint8_t*>(lit) + sizeof(lit)), K0, K1, \
-                                       static_cast<uint64_t>(nop::HashValue<nop::SipHash::Compute(lit, K0, K1)>::Value)});
+                                       static_cast<uint64_t>(nop::HashValue<nop::SipHash::Compute(lit, K0, K1)>::Value), \
+                                       static_cast<uint64_t>(nop::HashValue<nop::SipHash::Compute(nop::BlockReader<char>(lit), K0, K1)>::Value)});
   C18_LITERALS(X)
 #undef X
 #define X(i, arr, K0, K1) r.push_back({i, true, Bytes(arr, arr + sizeof(arr)), K0, K1, \
-                                       static_cast<uint64_t>(nop::HashValue<nop::SipHash::Compute(arr, K0, K1)>::Value)});
+                                       static_cast<uint64_t>(nop::HashValue<nop::SipHash::Compute(arr, K0, K1)>::Value), \
+                                       static_cast<uint64_t>(nop::HashValue<nop::SipHash::Compute(nop::BlockReader<std::uint8_t>(arr), K0, K1)>::Value)});
   C18_U8_LITERALS(X)
 #undef X
   return r;
@@ -262,6 +264,12 @@ static Verdict check_literal(const LitRow& l, bool exclude_high, Report* rep) {
     v.cls = "ct-rt-mismatch";
     snprintf(b, sizeof b, "ct-rt-mismatch: compile-time SipHash::Compute over %zu bytes (%s) = 0x%016" PRIx64 " but run-time = 0x%016" PRIx64 " (keys 0x%" PRIx64 ", 0x%" PRIx64 ")",
              n, abbreviated(p, n).c_str(), l.compile_time, rt, l.k0, l.k1);
+    v.message = b; return v;
+  }
+  if (l.compile_time_reader != l.compile_time) {
+    v.cls = "ct-rt-mismatch";
+    snprintf(b, sizeof b, "ct-rt-mismatch: SipHash::Compute(BlockReader<T>(array)) over %zu bytes (%s) = 0x%016" PRIx64 " but SipHash::Compute(array) = 0x%016" PRIx64 " (keys 0x%" PRIx64 ", 0x%" PRIx64 ")",
+             n, abbreviated(p, n).c_str(), l.compile_time_reader, l.compile_time, l.k0, l.k1);
     v.message = b; return v;
   }
   if (!l.u8 && high && exclude_high) { if (rep) rep->exclude("char-high-bytes: literal vs reference"); return v; }
